@@ -679,7 +679,7 @@ func (w *World) DisputeStory(o HistOpts) {
 		// (the backing stake changes between the two reports of this block: each reward is divided by the stake
 		// recorded with its own report)
 		func() {
-			if w.pick(2) == 0 {
+			if w.pick(4) != 0 {
 				w.Delegate(r, w.val(), int64(1_000_000*(1+w.pick(40))))
 			}
 		},
